@@ -79,8 +79,10 @@ func NewHub(o HubOpts) *Hub {
 
 func (h *Hub) open() {
 	h.Env = &conf.Config{
-		Logger:               hubLogger(),
-		StoreLocation:        filepath.Join(h.Dir, "store"),
+		Logger:        hubLogger(),
+		StoreLocation: filepath.Join(h.Dir, "store"),
+		// the hub defaults to a 4 GB block cache whose bookkeeping alone allocates ~290 MB per open store
+		BlockCacheSize:       32 << 20,
 		FullsyncLeaseTimeout: h.Lease,
 		Auth:                 &conf.AuthConfig{Middleware: "noop"},
 		RunnerConfig:         &conf.RunnerConfig{PoolIncremental: 10, PoolFull: 5, Concurrent: 1},
